@@ -125,6 +125,12 @@ impl Family for C07Family {
         c.rng_seed = r.next_u64();
         let n_pre = r.usize(4);
         c.prelude = gen_prelude(&mut r, n_pre, None);
+        // stored counters at the ends of the range now and then
+        for p in c.prelude.iter_mut() {
+            if p.counter.is_some() && r.chance(1, 6) {
+                p.counter = Some(*r.pick(&[0u32, 0x7fff_ffff, 0xffff_fffe, 0xffff_ffff]));
+            }
+        }
         let mut actor = gen_actor(&mut r);
         if r.chance(1, 8) {
             actor.verification = *r.pick(&[None, Some(false)]);
